@@ -2151,17 +2151,38 @@ stop_case(long idx)
 	replier       rp;
 	char          durl[128], durl2[128], ctx[96];
 	int           pert, variant, tran, rv;
-	static const char *vname[] = { "cancel-idle", "cancel-under-traffic", "aio-timeout", "close-owned-socket", "invalid-pairing", "second-device", "cancel-at-once", "stopped-aio" };
+	static const char *vname[] = { "cancel-idle", "cancel-under-traffic", "aio-timeout", "close-owned-socket", "invalid-pairing", "second-device", "cancel-at-once", "stopped-aio", "fini-after-stop" };
 
 	vf_rng_seed(&r, vf_seed, (uint64_t) idx);
 	fm      = &fams[vf_below(&r, 2)];
-	variant = (int) (idx % 8);
+	variant = (int) (idx % 9);
 	tran    = pick_tran(&r);
 	snprintf(ctx, sizeof(ctx), "stop/%s/%s", vname[variant], fm->name);
 	vf_case_begin(idx, "stop variant=%s fam=%s tran=%s", vname[variant], fm->name, vf_tran_names[tran]);
 	vf_watchdog(120);
 	set_pert(&r, &pert);
 
+	if (variant == 8) {
+		// the application stops the device, sees the aio complete, and
+		// shuts the library down at once (nothing else is open)
+		nng_socket a = sk_open(fm->rep_raw, 8, NULL), b = sk_open(fm->req_raw, 8, NULL);
+		dev_start(&dev, a, b);
+		if (vf_chance(&r, 1, 2)) {
+			vf_usleep((int) vf_below(&r, 500));
+		}
+		vf_pt_target(NNI_VP_MTX_LOCK, (int) vf_range(&r, 50, 400), 50, (int) vf_range(&r, 200, 1500));
+		dev_stop(&dev, ctx);
+		vf_nng_fini("C13");
+		vf_pt_off();
+		vf_nng_init(4, 2, 2);
+		pc_next          = 0;
+		cases_since_init = 0;
+		vf_class("stop/%s/%s", vname[variant], fm->name);
+		vf_stat("fini_right_after_stop", 1);
+		vf_stat("cases", 1);
+		vf_stat("stop_cases", 1);
+		return;
+	}
 	if (variant == 4) {
 		// pairings nng_device_aio must refuse; the caller keeps the sockets
 		nng_socket a, b, none = NNG_SOCKET_INITIALIZER;
